@@ -42,6 +42,9 @@ _BUILD = {
     # name: (cargo argv tail, env, relative path of the binary)
     'release': (['build', '--release'], {}, 'target/release/sm9exec'),
     'dev': (['build'], {}, 'target/debug/sm9exec'),
+    # coverage audit only (tools/coverage.sh): VERIF_RELEASE_FLAVOUR=cov makes every check use this binary as its release executor
+    'cov': (['+nightly', 'build', '--release', '--target-dir', 'target-cov'],
+            {'RUSTFLAGS': '--cfg %s -Cinstrument-coverage' % GUARD}, 'target-cov/release/sm9exec'),
     'asan': (['+nightly', 'build', '--release', '--target', 'x86_64-unknown-linux-gnu', '--target-dir', 'target-asan'],
              {'RUSTFLAGS': '--cfg %s -Zsanitizer=address -Cforce-frame-pointers=yes' % GUARD},
              'target-asan/x86_64-unknown-linux-gnu/release/sm9exec'),
@@ -54,6 +57,8 @@ _BUILD = {
 
 def build(name, quiet=True):
     """(Re)build one executor flavour from /repo's current working tree. Returns the binary path."""
+    if name == 'release' and os.environ.get('VERIF_RELEASE_FLAVOUR'):
+        name = os.environ['VERIF_RELEASE_FLAVOUR']
     argv, env, rel = _BUILD[name]
     cmd = ['cargo'] + argv
     t0 = time.time()
@@ -96,6 +101,12 @@ class Executor:
 
     def close(self):
         if self.p is not None:
+            # end of input first (lets an instrumented executor flush its counters), then kill
+            try:
+                self.p.stdin.close()
+                self.p.wait(timeout=3)
+            except Exception:
+                pass
             try:
                 self.p.kill()
             except Exception:
